@@ -1,7 +1,6 @@
 import NfcVerif.Gen.FnT12Ops
 import NfcVerif.Gen.FnTagCmd
 import NfcVerif.Model.FnT12OpsRef
-import NfcVerif.Model.SectC03
 import NfcVerif.Lemmas.FnBridgeBase
 /-!
 Glue and helper lemmas for `Props/FnBridgeT12Ops.lean`.
@@ -17,43 +16,48 @@ is no longer found at its path and the regenerated definition is refused.
 namespace NfcVerif.FnBridge.T12Ops
 open NfcVerif NfcVerif.PyFn
 
-/-- the slices of `Type2Tag.sector_select`, nested as in the source; `p2` is the outcome of the `transceive` of
-packet 2 (keyword arguments `timeout=0.001, retries=0`: not translatable).  Result: value / exception and
-`_current_sector` afterwards. -/
-def genSectorSelect (cur sector : Int) (tx1 : Bytes → Py Bytes) (p2 : Py Bytes) : Py Int × Int :=
-  if Gen.Fn.t2o_ss_guard sector cur = true then
-    match Gen.Fn.t2o_ss_send1 tx1 with
+/-- the slices of `Type2Tag.sector_select`, nested as in the source; `cur` is `_current_sector` (`none` = Python
+`None`: the guard slice is translated for an int, and `sector != None` is true); `p2` is the outcome of the
+`transceive` of packet 2 (keyword arguments `timeout=0.001, retries=0`: not translatable).  Result: value /
+exception and `_current_sector` afterwards.  `genSelectSend` is the body of `if sector != self._current_sector:`. -/
+def genSelectSend (cur : Option Int) (sector : Int) (tx1 : Bytes → Py Bytes) (p2 : Py Bytes) :
+    Py (Option Int) × Option Int :=
+  match Gen.Fn.t2o_ss_send1 tx1 with
+  | .error e => (.error e, cur)
+  | .ok rsp =>
+    match Gen.Fn.t2_sector_ack rsp with
     | .error e => (.error e, cur)
-    | .ok rsp =>
-      match Gen.Fn.t2_sector_ack rsp with
-      | .error e => (.error e, cur)
-      | .ok true =>
-        (match p2 with
-         | .error (.tagCmd code) =>
-           -- `except Type2TagCommandError as error: if int(error) != TIMEOUT_ERROR: raise`
-           if Gen.Fn.t2o_ss_p2_passive code = true then (.error (.tagCmd code), cur)
-           else (.ok (Gen.Fn.t2o_ss_ret (Gen.Fn.t2o_ss_commit sector)), Gen.Fn.t2o_ss_commit sector)
+    | .ok true =>
+      (match p2 with
+       | .error (.tagCmd code) =>
+         -- `except Type2TagCommandError as error: if int(error) != TIMEOUT_ERROR: self._current_sector = None; raise`
+         if Gen.Fn.t2o_ss_p2_passive code = true then (.error (.tagCmd code), Gen.Fn.t2o_ss_p2_forget)
+         else (.ok (Gen.Fn.t2o_ss_ret (some (Gen.Fn.t2o_ss_commit sector))), some (Gen.Fn.t2o_ss_commit sector))
+       | .error e => (.error e, cur)
+       | .ok _ =>
+         -- `else:` of the try statement
+         match Gen.Fn.t2o_ss_no_sector sector with
          | .error e => (.error e, cur)
-         | .ok _ =>
-           -- `else:` of the try statement
-           match Gen.Fn.t2o_ss_no_sector sector with
-           | .error e => (.error e, cur)
-           | .ok _ => (.ok (Gen.Fn.t2o_ss_ret (Gen.Fn.t2o_ss_commit sector)), Gen.Fn.t2o_ss_commit sector))
-      | .ok false =>
-        match Gen.Fn.t2o_ss_unsupported with
-        | .error e => (.error e, cur)
-        | .ok _ => (.ok (Gen.Fn.t2o_ss_ret (Gen.Fn.t2o_ss_commit sector)), Gen.Fn.t2o_ss_commit sector)
-  else (.ok (Gen.Fn.t2o_ss_ret cur), cur)
+         | .ok _ => (.ok (Gen.Fn.t2o_ss_ret (some (Gen.Fn.t2o_ss_commit sector))), some (Gen.Fn.t2o_ss_commit sector)))
+    | .ok false =>
+      match Gen.Fn.t2o_ss_unsupported with
+      | .error e => (.error e, cur)
+      | .ok _ => (.ok (Gen.Fn.t2o_ss_ret (some (Gen.Fn.t2o_ss_commit sector))), some (Gen.Fn.t2o_ss_commit sector))
+
+/-- the whole method: the guard (for `None` the Python test `sector != None` is true), then the body of the `if`
+(`genSelectSend`: the slices nested as in the source) or the plain `return` -/
+def genSectorSelect (cur : Option Int) (sector : Int) (tx1 : Bytes → Py Bytes) (p2 : Py Bytes) :
+    Py (Option Int) × Option Int :=
+  match cur with
+  | none => genSelectSend cur sector tx1 p2
+  | some c =>
+    if Gen.Fn.t2o_ss_guard sector c = true then genSelectSend cur sector tx1 p2
+    else (.ok (Gen.Fn.t2o_ss_ret cur), cur)
 
 /-- the two slices of the NAK branch of `Type2Tag.read` behind the re-activation (`self._target = self.clf.sense(..)`,
 not translated): statement 3 assigns `_current_sector`, statement 4 raises.  Result: exception, `_current_sector`. -/
 def genReadNak (alive : Bool) : Py Unit × Int :=
   (Gen.Fn.t2o_read_nak_exc alive, Gen.Fn.t2o_read_nak_reset)
-
-/-- the reader's view of one `clf.exchange` of the sector model as an outcome of `transceive(.., retries=0)` -/
-def p2Of : Except SectC03.RErr Bytes → Py Bytes
-  | .ok d => .ok d
-  | .error e => .error (SectC03.errOf e)
 
 theorem ack_eq (rsp : Bytes) : Gen.Fn.t2_sector_ack rsp = .ok (decide (rsp = [0x0A])) := by
   unfold Gen.Fn.t2_sector_ack
@@ -68,33 +72,5 @@ theorem ack_eq (rsp : Bytes) : Gen.Fn.t2_sector_ack rsp = .ok (decide (rsp = [0x
   | a :: b :: r =>
     have : ¬ ((r.length : Int) + 1 + 1 = 1) := by omega
     simp [len, this]
-
-/-! the air interface of the sector model never touches `_current_sector` -/
-theorem execute_cur (w : SectC03.W) (mr : Bool) (f : SectC03.Frame) (rest : List SectC03.Air) :
-    (SectC03.execute w mr f rest).1.cur = w.cur := rfl
-
-theorem exchange_cur (w : SectC03.W) (mr : Bool) (f : SectC03.Frame) : (SectC03.exchange w mr f).1.cur = w.cur := by
-  unfold SectC03.exchange
-  split
-  · rfl
-  · rfl
-  · rfl
-  · rfl
-  · rfl
-
-theorem transceive_cur (mr : Bool) (f : SectC03.Frame) :
-    ∀ (n : Nat) (w : SectC03.W) (e : SectC03.RErr), (SectC03.transceive n w mr f e).1.cur = w.cur := by
-  intro n
-  induction n with
-  | zero => intro w e; rfl
-  | succ n ih =>
-    intro w e
-    unfold SectC03.transceive
-    have hx := exchange_cur w mr f
-    generalize SectC03.exchange w mr f = r at hx
-    obtain ⟨w', o⟩ := r
-    cases o with
-    | ok d => exact hx
-    | error e' => simp only; rw [ih w' e']; exact hx
 
 end NfcVerif.FnBridge.T12Ops
